@@ -7,7 +7,7 @@ seeds=("$@"); [ ${#seeds[@]} -eq 0 ] && seeds=($(ls seeded | grep -v RESULTS))
 for s in "${seeds[@]}"; do
   d=/verif/seeded/$s; [ -f $d/patch.diff ] || continue
   prop=$(python3 -c "import json;print(json.load(open('$d/meta.json'))['property'])")
-  if ! grep -q "\"property_id\": \"$prop\"" MANIFEST.json; then echo "$s $prop not-claimed" | tee -a seeded/RESULTS.tmp; python3 - "$d" <<'PY'
+  if ! python3 -c "import json,sys;sys.exit(0 if any(c['property_id']=='$prop' for c in json.load(open('MANIFEST.json'))['checks']) else 1)"; then echo "$s $prop not-claimed" | tee -a seeded/RESULTS.tmp; python3 - "$d" <<'PY'
 import json,sys
 p=sys.argv[1]+'/meta.json';m=json.load(open(p));m['detected_by']='property not claimed (not_applicable)';json.dump(m,open(p,'w'),indent=1)
 PY
@@ -17,7 +17,7 @@ PY
   git -C /repo checkout -- .
   git -C /repo clean -fdq -- . >/dev/null 2>&1
   viol=$(echo "$out" | grep -E "^FAIL|^VIOLATION" | head -6)
-  names=$(echo "$out" | grep -E "^FAIL" | awk '{print $2}' | sort -u | tr '\n' ' ')
+  names=$(echo "$out" | grep -E "^  obligation " | awk '{print $2}' | tr -d ':' | sort -u | tr '\n' ' ')
   echo "$s $prop rc=$rc ${names}" | tee -a seeded/RESULTS.tmp
   python3 - "$d" "$rc" "$names" <<'PY'
 import json,sys
